@@ -28,7 +28,7 @@ class Shim:
     characters (writes) or not performed at all (everything else); then the process dies (crash) or
     the call raises OSError (fault)."""
 
-    def __init__(self, root, mode='trace', k=-1, n=0, report=None):
+    def __init__(self, root, mode='trace', k=-1, n=0, report=None, exdev=False):
         self.root = os.path.realpath(root)
         self.mode, self.k, self.n = mode, k, n
         self.trace = []
@@ -37,6 +37,7 @@ class Shim:
         self.injected = False
         self.span = None
         self.open_files = []
+        self.exdev = exdev
 
     def rel(self, p):
         try:
@@ -186,13 +187,55 @@ def install(shim):
                 shim.depth -= 1
         setattr(mod, name, w)
 
-    wrap(shutil, 'move', 'M', 2)
+    if not shim.exdev:
+        wrap(shutil, 'move', 'M', 2)
+    else:
+        # ./tally lives on another file system: rename(2) gives EXDEV and shutil.move falls back to
+        # copytree + rmtree.  The move is then NOT one step: its mkdir / per-file copy / rmtree steps are
+        # recorded (and interrupted) one by one.
+        real_move = shutil.move
+        _real['shutil.move'] = real_move
+
+        def x_move(src, dst, *a, **kw):
+            rels = [shim.rel(src), shim.rel(dst)]
+            if shim.depth or all(r is None for r in rels):
+                return real_move(src, dst, *a, **kw)
+            if shim.step(['Mx'] + [r if r is not None else '<outside>' for r in rels]):
+                shim.die_or_raise()
+            return real_move(src, dst, *a, **kw)       # depth stays 0: the fallback's steps are recorded
+        shutil.move = x_move
     wrap(os, 'makedirs', 'D', 1)
     for name, n in (('rename', 2), ('replace', 2), ('remove', 1), ('unlink', 1), ('rmdir', 1), ('mkdir', 1),
                     ('truncate', 1), ('link', 2), ('symlink', 2)):
         wrap(os, name, 'X:os.' + name, n)
     for name, n in (('copy', 2), ('copy2', 2), ('copyfile', 2), ('copytree', 2), ('rmtree', 1)):
         wrap(shutil, name, 'X:shutil.' + name, n)
+    if shim.exdev:
+        wrapped_rename = os.rename
+
+        def x_rename(src, dst, *a, **kw):
+            if not shim.depth and (shim.rel(src) is not None or shim.rel(dst) is not None):
+                raise OSError(errno.EXDEV, 'Invalid cross-device link')
+            return wrapped_rename(src, dst, *a, **kw)
+        os.rename = x_rename
+        shutil.copytree = _real['shutil.copytree']      # not one step here: its mkdir / copyfile calls are the steps
+        real_copyfile = _real['shutil.copyfile']
+
+        def x_copyfile(src, dst, *a, **kw):
+            rels = [shim.rel(src), shim.rel(dst)]
+            if shim.depth or all(r is None for r in rels):
+                return real_copyfile(src, dst, *a, **kw)
+            if shim.step(['CP'] + [r if r is not None else '<outside>' for r in rels]):
+                if shim.n > 0:                       # the copy had got this far
+                    with _real['open'](src, 'rb') as fi, _real['open'](dst, 'wb') as fo:
+                        fo.write(fi.read()[:shim.n])
+                shim.die_or_raise()
+            shim.depth += 1
+            try:
+                return real_copyfile(src, dst, *a, **kw)
+            finally:
+                shim.depth -= 1
+        shutil.copyfile = x_copyfile
     real_os_open = os.open
     _real['os.open'] = real_os_open
 
@@ -349,14 +392,14 @@ def classification(stdout):
                   for m in js.get('merchants', []))
 
 
-def run_command(cmd, root, mode, k, n):
+def run_command(cmd, root, mode, k, n, exdev=False):
     """First (possibly interrupted) run of the command under the shim, in a child."""
     argv, cwd = cmd_argv(cmd, root)
 
     def body(send):
         if cwd:
             os.chdir(cwd)
-        shim = Shim(root, mode, k, n, report=lambda tr: send({'trace': tr, 'crashed': True}))
+        shim = Shim(root, mode, k, n, report=lambda tr: send({'trace': tr, 'crashed': True}), exdev=exdev)
         install(shim)
         code, out = call_cli(argv)
         send({'trace': shim.trace, 'crashed': False, 'exit': code, 'injected': shim.injected, 'span': shim.span,
@@ -468,6 +511,7 @@ def tree_key(tree):
 def run_job(job):
     root0 = job['root']
     cmd = job['cmd']
+    exdev = bool(job.get('exdev'))
     out = []
     obs_cache = {}
     rerun_cache = {}
@@ -486,7 +530,7 @@ def run_job(job):
     if scenarios == 'auto':
         root = os.path.join(root0, 's0', 'b')
         materialise(root, job['tree'])
-        tr = run_command(cmd, root, 'trace', -1, 0)
+        tr = run_command(cmd, root, 'trace', -1, 0, exdev)
         pre[0] = tr
         scenarios = [{'mode': 'trace'}]
         sp = tr.get('span')
@@ -505,7 +549,10 @@ def run_job(job):
             for k in range(a, b):
                 e = tr['trace'][k]
                 rel, pieces = pend[k]
-                if e[0] == 'W':
+                if e[0] == 'CP':
+                    src = job['tree'].get(e[1]) or ''
+                    ns = sorted({0, len(src) // 2})      # not begun / half copied (complete = the next step)
+                elif e[0] == 'W':
                     base = sum(len(d) for d in pieces)
                     ns = [base + c for c in (cuts.get(e[2]) or sorted({0, len(e[2]) // 2, len(e[2])}))]
                 elif pieces:
@@ -525,7 +572,7 @@ def run_job(job):
             first = pre[i]
         else:
             materialise(root, job['tree'])
-            first = run_command(cmd, root, sc['mode'], sc.get('k', -1), sc.get('n', 0))
+            first = run_command(cmd, root, sc['mode'], sc.get('k', -1), sc.get('n', 0), exdev)
         t1 = snapshot(root)
         r = {'mode': sc['mode'], 'k': sc.get('k', -1), 'n': sc.get('n', 0), 'first': first, 'tree': t1,
              'observe': obs(root, t1)}
@@ -533,7 +580,7 @@ def run_job(job):
         if job.get('keep'):
             shutil.copytree(root, root + '.interrupted-state', dirs_exist_ok=True)
         if key not in rerun_cache:
-            again = run_command(cmd, root, 'trace', -1, 0)
+            again = run_command(cmd, root, 'trace', -1, 0, exdev)
             t2 = snapshot(root)
             rerun_cache[key] = {'run': again, 'tree': t2, 'observe': obs(root, t2)}
         r['rerun'] = rerun_cache[key]
